@@ -1,0 +1,129 @@
+package internal
+
+import (
+	"fmt"
+	"go/token"
+	"go/types"
+)
+
+// unnameableTypes inspects t and every type it is composed of, and reports
+// the named types and type parameters among them that code generated for the
+// directive at pos cannot refer to by name. The result maps a description of
+// each such type to the error to report for it.
+//
+// Generated code declares variables and parameters of the types that flow
+// through a directive, spelling the types the way the type printer does. Code
+// generated in place (packageScope false) can name what is visible at pos.
+// Code generated at the top level of the file (packageScope true) can name
+// package-level declarations only. Neither can name a type that another
+// package does not export, even though a value of that type can be held.
+func unnameableTypes(
+	t types.Type,
+	pkg *types.Package,
+	pos token.Pos,
+	packageScope bool,
+	fset *token.FileSet,
+) map[string]error {
+	if pkg == nil || !pos.IsValid() {
+		return nil
+	}
+	var (
+		errs = make(map[string]error)
+		// Named types met so far; only they can make a type refer to
+		// itself.
+		seen = make(map[*types.Named]struct{})
+	)
+
+	// checkObject verifies that the name of obj, a type name declared in
+	// pkg, refers to obj where the generated code is placed.
+	checkObject := func(obj *types.TypeName, what string) {
+		if packageScope {
+			if obj.Parent() != pkg.Scope() {
+				errs[obj.Name()] = fmt.Errorf(
+					"%v: %v %v (declared at %v) is local to a function, but this generation mode needs to refer to it from the top level of the file",
+					fset.Position(pos), what, obj.Name(), fset.Position(obj.Pos()))
+			}
+			return
+		}
+		scope := pkg.Scope().Innermost(pos)
+		if scope == nil {
+			return
+		}
+		if _, found := scope.LookupParent(obj.Name(), pos); found != types.Object(obj) {
+			at := "nothing"
+			if found != nil {
+				at = fmt.Sprintf("the declaration at %v", fset.Position(found.Pos()))
+			}
+			errs[obj.Name()] = fmt.Errorf(
+				"%v: here %v refers to %v, not to %v %v (declared at %v) that the generated code needs to name: rename one of them",
+				fset.Position(pos), obj.Name(), at, what, obj.Name(), fset.Position(obj.Pos()))
+		}
+	}
+
+	var visit func(types.Type)
+	visitTuple := func(tup *types.Tuple) {
+		for i := 0; i < tup.Len(); i++ {
+			visit(tup.At(i).Type())
+		}
+	}
+	visit = func(t types.Type) {
+		switch t := t.(type) {
+		case nil:
+		case *types.Named:
+			if _, ok := seen[t]; ok {
+				return
+			}
+			seen[t] = struct{}{}
+			if args := t.TypeArgs(); args != nil {
+				for i := 0; i < args.Len(); i++ {
+					visit(args.At(i))
+				}
+			}
+			obj := t.Obj()
+			switch {
+			case obj.Pkg() == nil:
+				// Predeclared, e.g. error.
+			case obj.Pkg() != pkg:
+				if !obj.Exported() {
+					name := obj.Pkg().Path() + "." + obj.Name()
+					errs[name] = fmt.Errorf(
+						"%v: type %v is not exported by package %q, so the generated code cannot name it: use an exported type or an interface",
+						fset.Position(pos), obj.Name(), obj.Pkg().Path())
+				}
+			default:
+				checkObject(obj, "type")
+			}
+		case *types.TypeParam:
+			checkObject(t.Obj(), "type parameter")
+		case *types.Pointer:
+			visit(t.Elem())
+		case *types.Slice:
+			visit(t.Elem())
+		case *types.Array:
+			visit(t.Elem())
+		case *types.Chan:
+			visit(t.Elem())
+		case *types.Map:
+			visit(t.Key())
+			visit(t.Elem())
+		case *types.Signature:
+			visitTuple(t.Params())
+			visitTuple(t.Results())
+		case *types.Struct:
+			for i := 0; i < t.NumFields(); i++ {
+				visit(t.Field(i).Type())
+			}
+		case *types.Interface:
+			for i := 0; i < t.NumExplicitMethods(); i++ {
+				visit(t.ExplicitMethod(i).Type())
+			}
+			for i := 0; i < t.NumEmbeddeds(); i++ {
+				visit(t.EmbeddedType(i))
+			}
+		case *types.Tuple:
+			visitTuple(t)
+		}
+	}
+	visit(t)
+	return errs
+}
